@@ -1,5 +1,6 @@
 import H2T.Lemmas.Cascade
 import H2T.Lemmas.TagColour
+import H2T.Lemmas.CascadeComputed
 import H2T.Lemmas.TagRich
 
 /-! # C19 — competing declarations are resolved by the CSS cascade
@@ -56,6 +57,32 @@ example :
     let b : Dcl := ⟨false, .author, { inline := true }, 2⟩
     let c : Dcl := ⟨false, .author, { inline := true }, 3⟩
     (foldImpl WithSpec.maybeUpdate {} [b, a, c]).val = some 3 := by decide
+
+/-! ## the computed style of an element holds the cascade's winner
+
+`cascade_is_reference` is about the fold; this section says what `computed_style` folds over.  `colourDcls` lists the
+colour declarations that apply to an element in the order the code visits them: rules of the agent, user and author
+sheets whose selector matches (rules for `::before`/`::after` excluded), then the `style` attribute's declarations and the
+legacy `color` attribute, in attribute order, as author declarations with inline specificity. -/
+
+/-- **the colour in an element's computed style is the reference cascade's winner** among the colour declarations that
+    apply to it — for every three style sheets, every element (given by its ancestor chain), with or without document
+    CSS; `none` exactly when no colour declaration applies -/
+theorem element_colour_is_cascade_winner (sd : StyleData) (useDoc : Bool) (chain : List Frame) (c : Computed)
+    (h : computedStyle sd useDoc chain = .ok c) :
+    c.main.colour.val = (cascadeRefG (colourDcls sd useDoc chain)).map (·.val) :=
+  computed_colour_is_cascade sd useDoc chain c h
+
+/-- …and that is the colour the render node carries (`styleOf` copies the holder's value) -/
+theorem node_style_is_computed_colour (c : Computed) : (H2T.styleOf c).fg = c.main.colour.val := rfl
+
+/-- the reference over declarations with values picks by layer, then specificity, later wins — the same order as `cascadeRef` -/
+theorem reference_order (a b : DclG Rgb) : cascadeRefG [a, b] = some (if a.key.le b.key then b else a) := rfl
+
+/-- non-vacuity: an author rule and an important user rule for the same element: the user's colour wins -/
+example :
+    (cascadeRefG [(⟨false, .author, { typ := 1 }, ⟨255, 0, 0⟩⟩ : DclG Rgb), ⟨true, .user, { typ := 1 }, ⟨0, 0, 255⟩⟩]).map (·.val) =
+      some ⟨0, 0, 255⟩ := by decide
 
 /-! ## text takes its colour from the nearest enclosing element that has one
 
